@@ -32,7 +32,16 @@ it, diamonds -- created with type(name, bases, {}) through the library's metacla
 the library's base classes themselves.  model/SettingsMroTie.v [mcheck] computes every class's MRO with the
 C3 linearisation of model/SettingsMro.v, compares it with the real __mro__, and judges outcomes and
 readings against SettingsMro.m_vtrace (lookup through the MRO as the code performs it) and
-SettingsMro.m_vspec_trace (own value, else the FIRST CLASS OF THE MRO that has one, else the default)."""
+SettingsMro.m_vspec_trace (own value, else the FIRST CLASS OF THE MRO that has one, else the default).
+
+SUPPORT DETECTION inside the histories ("det": 1 cases, driver impl/impl_c20_detect.py): the process starts
+as a fresh one (no `_supported` recorded anywhere), the terminal reports one of six identities (kitty 0.30,
+kitty 0.19, konsole, wezterm, iterm2, unknown: name / version + reply to the kitty graphics query are
+stubbed, the detection is the library's own) and the history of set / unset operations of one setting is
+interleaved with support checks on any class ("det", possibly a subclass first, possibly after the
+recorded flags were dropped) and instance creations ("new", which check support first).
+model/SettingsDetectTie.v [dcheck] judges every row against SettingsDetect.dtrace (detection writes only the
+support flags) and against the documented rule on the history WITH THE DETECTION STEPS ERASED."""
 from __future__ import annotations
 
 import json
@@ -41,7 +50,7 @@ import core
 
 LEVEL = "proof"
 EXTRA_TARGETS = ["model/SettingsTie.vo", "model/SettingsRenderTie.vo", "model/SettingsValTie.vo",
-                 "model/SettingsMroTie.vo"]
+                 "model/SettingsMroTie.vo", "model/SettingsDetectTie.vo"]
 KINDS = {
     "rm": lambda root: f"(SRm {2 if root == 'kitty' else 3})",
     "fs": lambda root: "SFs",
@@ -658,6 +667,169 @@ def evaluate(cases, tag="c20", only=None):
     return status, errors, impl, cases
 
 
+# ---------------------------------------------------------------- support detection inside the histories
+
+IDENTS = {"kitty30": "IdKitty30", "kitty19": "IdKitty19", "konsole": "IdKonsole", "wezterm": "IdWezterm",
+          "iterm2": "IdIterm2", "unknown": "IdUnknown"}
+DKINDS = {"rm": lambda root: f"(k_render_method {2 if root == 'kitty' else 3})", "fs": lambda root: "k_forced_support",
+          "jq": lambda root: "k_jpeg_quality", "rff": lambda root: "k_read_from_file"}
+DSETTINGS = {"kitty": ["rm", "rm", "rm", "fs"], "iterm2": ["rm", "rm", "rm", "fs", "jq", "rff"]}
+
+
+def gen_forest(rng, nmax):
+    n = rng.randint(1, nmax)
+    shape = rng.choice(["chain", "star", "tree"])
+    return [0] + [{"chain": c - 1, "star": 0, "tree": rng.randrange(c)}[shape] for c in range(1, n)]
+
+
+def gen_set_op(rng, s, nc, ni):
+    kind = rng.choice(["cs", "cs", "cs", "cu", "cu", "is", "iu"] if ni else ["cs", "cs", "cu"])
+    t = rng.randrange(nc if kind in ("cs", "cu") else ni)
+    o = {"op": kind, "t": t, "pres": rng.randrange(6)}
+    if kind in ("cs", "is"):
+        o["v"] = rng.choice(VALUES[s])
+    return o
+
+
+def gen_detect_case(rng, size):
+    root = rng.choice(["kitty", "kitty", "iterm2"])
+    s = rng.choice(DSETTINGS[root])
+    par = gen_forest(rng, 4)
+    nc = len(par)
+    icls = [rng.randrange(nc) for _ in range(rng.choice([0, 1, 1, 2]))]
+    ops = []
+    for _ in range(rng.randint(2, size)):
+        r = rng.random()
+        if r < 0.22:
+            ops.append({"op": "det", "t": rng.randrange(nc), "fresh": rng.random() < 0.35})
+        elif r < 0.4:
+            ops.append({"op": "new", "t": rng.randrange(nc)})
+        else:
+            ops.append(gen_set_op(rng, s, nc, len(icls)))
+    return {"det": 1, "root": root, "s": s, "ident": rng.choice(sorted(IDENTS)), "par": par, "icls": icls, "ops": ops}
+
+
+def detect_corpus():
+    """Every terminal identity x both styles: detection (on the class / on a subclass first / by the
+    first instance creation) before, between and after class-wide set / unset operations."""
+    out = []
+    cs = lambda t, v: {"op": "cs", "t": t, "v": v, "pres": 0}
+    cu = lambda t: {"op": "cu", "t": t, "pres": 0}
+    det = lambda t, fresh=False: {"op": "det", "t": t, "fresh": fresh}
+    new = lambda t: {"op": "new", "t": t}
+    for root in ("kitty", "iterm2"):
+        for ident in sorted(IDENTS):
+            base = {"det": 1, "root": root, "ident": ident, "par": [0, 0, 1], "icls": [1, 0]}
+            for s, hi in (("rm", 1), ("fs", 1)) + ((("jq", 50), ("rff", 0)) if root == "iterm2" and ident in ("konsole", "unknown") else ()):
+                lo = {"rm": 0, "fs": 0, "jq": -1, "rff": 1}[s]
+                hists = [
+                    [det(0), cs(0, hi), cu(0), det(1), new(2)],                 # detection first, then set / unset
+                    [cs(0, lo), new(0), cs(0, hi), new(1), cu(0), det(0, True)],  # explicit default value, then first creation
+                    [det(2), cs(0, hi), cs(0, lo), det(1), cs(1, hi), det(0), cu(1), new(2)],  # a subclass is checked first
+                    [cs(1, hi), new(2), cu(1), det(0), {"op": "is", "t": 0, "v": hi, "pres": 0}, det(1, True),
+                     {"op": "iu", "t": 0, "pres": 1}, new(1)],
+                ]
+                out += [dict(base, s=s, ops=h) for h in hists]
+    return out
+
+
+def dop_term(o):
+    if o["op"] == "det":
+        return f"DDetect {'true' if o.get('fresh') else 'false'} {o['t']}"
+    if o["op"] == "new":
+        return f"DNew {o['t']}"
+    if o["op"] == "cs":
+        return f"DOp (ClsSet {o['t']} {core.z(o['v'])})"
+    if o["op"] == "is":
+        return f"DOp (InstSet {o['t']} {core.z(o['v'])})"
+    return f"DOp ({'ClsUnset' if o['op'] == 'cu' else 'InstUnset'} {o['t']})"
+
+
+def evaluate_detect(cases, tag="c20d"):
+    """Detection cases on the implementation and in Coq: (status per case, errors, impl results)."""
+    if not cases:
+        return [], [], []
+    impl = core.run_impl_parallel("impl_c20_detect.py", cases)
+    status = [[] for _ in cases]
+    errors, terms, owner = [], [], []
+    for i, (c, r) in enumerate(zip(cases, impl)):
+        if not r.get("restored", 0) or not r.get("clean_start", 0):
+            errors.append(f"detection case {i}: library classes not restored (restored={r.get('restored')}, "
+                          f"clean_start={r.get('clean_start')})")
+        if "error" in r:
+            errors.append(f"detection case {i}: driver failed: {r['error']} {r.get('tb', '')}")
+            continue
+        if r["confirm_bad"]:
+            status[i].append(("framing", 2))
+        if r["others"]:
+            status[i].append(("other-settings-changed", 2))
+        terms.append(
+            f"{{| dc_kind := {DKINDS[c['s']](c['root'])}; dc_isfs := {'true' if c['s'] == 'fs' else 'false'}; "
+            f"dc_g := {'GKitty' if c['root'] == 'kitty' else 'GIterm2'}; dc_t := {IDENTS[c['ident']]}; "
+            f"dc_par := {core.coq_list(c['par'])}; dc_icls := {core.coq_list(c['icls'])}; "
+            f"dc_ops := {core.coq_list(c['ops'], dop_term)}; dc_obs := {zll(r['rows'])} |}}")
+        owner.append(i)
+    header = ("From Coq Require Import List ZArith.\nImport ListNotations.\n"
+              "From TI Require Import model.Settings model.SettingsTie model.SettingsDetect model.SettingsDetectTie.\n"
+              "Open Scope nat_scope.\n")
+    bad, errs = core.coq_shards(tag, header, terms, "dcase", "dbad cases") if terms else ([], [])
+    errors += errs
+    for idx, code in bad:
+        status[owner[idx]].append((cases[owner[idx]]["s"], code))
+    return status, errors, impl
+
+
+def shrink_detect(case):
+    """Drop operations (chunks, then single ones), then unused classes / instances, while the property
+    oracle still fails on the implementation."""
+    def failing(cands):
+        st, errs, _ = evaluate_detect(cands, tag="c20ds")
+        return None if errs else next((c for c, x in zip(cands, st) if fails_spec(x)), None)
+
+    cur = case
+    size = max(1, len(cur["ops"]) // 2)
+    for _ in range(40):
+        L = len(cur["ops"])
+        cands = [dict(cur, ops=cur["ops"][:k] + cur["ops"][k + size:]) for k in range(0, L, size)
+                 if L - len(cur["ops"][k:k + size]) >= 1]
+        nxt = failing(cands) if cands else None
+        if nxt is not None:
+            cur = nxt
+            size = max(1, min(size, len(cur["ops"]) // 2))
+        elif size == 1:
+            break
+        else:
+            size = max(1, size // 2)
+    # without the instances / trailing classes the operations do not involve
+    used_i = sorted({o["t"] for o in cur["ops"] if o["op"] in ("is", "iu")})
+    imap = {i: j for j, i in enumerate(used_i)}
+    keep = {0} | {o["t"] for o in cur["ops"] if o["op"] not in ("is", "iu")} | {cur["icls"][i] for i in used_i}
+    for c in sorted(keep, reverse=True):
+        while c:
+            c = cur["par"][c]
+            keep.add(c)
+    cmap = {c: j for j, c in enumerate(sorted(keep))}
+    small = dict(cur, par=[cmap[cur["par"][c]] for c in sorted(keep)], icls=[cmap[cur["icls"][i]] for i in used_i],
+                 ops=[dict(o, t=(imap if o["op"] in ("is", "iu") else cmap)[o["t"]]) for o in cur["ops"]])
+    if small != cur and failing([small]) is not None:
+        cur = small
+    return cur
+
+
+def describe_detect(case):
+    def one(o):
+        if o["op"] == "det":
+            return f"C{o['t']}.is_supported()" + ("<after dropping the recorded flags>" if o.get("fresh") else "")
+        if o["op"] == "new":
+            return f"C{o['t']}(image)"
+        who = ("C%d" if o["op"] in ("cs", "cu") else "inst%d") % o["t"]
+        if o["op"] in ("cs", "is"):
+            return f"{who}.{case['s']}={val_repr(legacy_val(case['s'], o['v'], o.get('pres', 0)))}"
+        return f"{who}.{case['s']}.unset"
+    return (f"fresh process, terminal={case['ident']}, root={case['root']} parents={case['par']} "
+            f"inst_classes={case['icls']} ops=[{', '.join(map(one, case['ops']))}]")
+
+
 def fails_spec(st):
     return any(code >= 2 for _, code in st)
 
@@ -752,9 +924,13 @@ def describe(case):
 
 def run(ctx):
     rng = ctx.rng
+    dcases = []
     if ctx.replay:
         cases = [ctx.replay["replay"]["case"]]
+        if cases[0].get("det"):
+            dcases, cases = cases, []
     else:
+
         n = 300 if ctx.quick else 4000
         nmi = 110 if ctx.quick else 1500
         corpus = list(CORPUS) + mi_corpus() + render_corpus() + value_corpus()
@@ -762,9 +938,16 @@ def run(ctx):
         # hierarchies with multiple inheritance rooted at the library's base classes (own generator stream
         # position: after the forests, so that those are the same cases as before)
         cases += [gen_mi_case(rng, 10 if i % 3 else 24) for i in range(nmi)]
+        # support detection inside the histories (drawn after the others, so that those stay the same cases)
+        dcases = detect_corpus() + [gen_detect_case(rng, 8 if i % 3 else 16) for i in range(150 if ctx.quick else 3000)]
     src_info()
     lower_bad = list(_PROBE.get("lower_bad", []))
-    status, errors, impl, cases = evaluate(cases)
+    from concurrent.futures import ThreadPoolExecutor
+    with ThreadPoolExecutor(max_workers=1) as ex:  # the detection histories side by side with the others
+        fut = ex.submit(evaluate_detect, dcases)
+        status, errors, impl, cases = evaluate(cases) if cases else ([], [], [], [])
+        dstatus, derrors, dimpl = fut.result()
+    errors += derrors
     if lower_bad:
         errors.append("str.lower() of the running Python maps code points outside A-Z onto letters of the "
                       f"render-method names (model/SettingsVal.v lower_cp assumes none): {lower_bad[:10]}")
@@ -864,11 +1047,54 @@ def run(ctx):
             })
         else:
             mismatches.append({"case": cases[i], "status": st, "observed": impl[i]["obs"]})
+    hist["detection"] = {"cases": len(dcases), "terminal": {}, "setting": {}, "ops": {}, "answers": {},
+                         "first_detection_on": {}, "detection_vs_sets": {}}
+    for c, r in zip(dcases, dimpl):
+        h = hist["detection"]
+        h["terminal"][f"{c['root']}/{c['ident']}"] = h["terminal"].get(f"{c['root']}/{c['ident']}", 0) + 1
+        h["setting"][c["s"]] = h["setting"].get(c["s"], 0) + 1
+        kinds = [o["op"] for o in c["ops"]]
+        for o, row in zip(c["ops"], r.get("rows", [])):
+            key = o["op"] + ("(fresh)" if o.get("fresh") else "")
+            h["ops"][key] = h["ops"].get(key, 0) + 1
+            if o["op"] in ("det", "new"):
+                key = f"{o['op']}:{'yes' if row[0] else 'no'}"
+                h["answers"][key] = h["answers"].get(key, 0) + 1
+        dk = [k for k, x in enumerate(kinds) if x in ("det", "new")]
+        sk = [k for k, x in enumerate(kinds) if x in ("cs", "cu", "is", "iu")]
+        if dk:
+            first = c["ops"][dk[0]]
+            key = ("the style class" if first["t"] == 0 else "a subclass") + (" (instance creation)" if first["op"] == "new" else "")
+            h["first_detection_on"][key] = h["first_detection_on"].get(key, 0) + 1
+        if dk and sk:
+            key = ("before" if dk[0] < sk[0] else "") + ("+between" if any(sk[0] < k < sk[-1] for k in dk) else "") \
+                + ("+after" if dk[-1] > sk[-1] else "")
+            h["detection_vs_sets"][key] = h["detection_vs_sets"].get(key, 0) + 1
+        if len(c["par"]) >= 2 and dk and "cs" in kinds and len(c["ops"]) >= 3:
+            distinct.add(core.sig(c))
+    for i, st in enumerate(dstatus):
+        if not st:
+            continue
+        if fails_spec(st):
+            if len(failures) < 2 and not ctx.replay:
+                small = shrink_detect(dcases[i])
+                st2, _, impl2 = evaluate_detect([small], tag="c20dr")
+            else:
+                small, st2, impl2 = dcases[i], [st], [dimpl[i]]
+            failures.append({
+                "signature": core.sig({k: small[k] for k in ("root", "s", "ident", "par", "icls", "ops")}),
+                "what": "support detection / instance creation inside a settings history changes what a class or instance "
+                        f"reads ({[s for s, c in st2[0] if c >= 2]}; the documented rule on the history without the "
+                        f"detection steps is violated): {describe_detect(small)}",
+                "replay": {"case": small, "observed": impl2[0], "status": st2[0]},
+            })
+        else:
+            mismatches.append({"case": dcases[i], "status": st, "observed": dimpl[i].get("rows")})
     return {
         "corr_name": "SettingsVal.vtrace / SettingsMro.m_vtrace (model) == real set/unset history, with values of the "
                      "whole universe, on KittyImage/ITerm2Image subclass forests and on multiple-inheritance "
                      "hierarchies rooted at the library's base classes",
-        "evaluations": len(cases),
+        "evaluations": len(cases) + len(dcases),
         "distinct_nontrivial": len(distinct),
         "rule": "corpus + random class forests (1-6 classes: chains, stars, random trees; 0-3 instances) with 1-30 "
                 "set/unset/invalid-set operations over render method, forced support, jpeg quality, read-from-file, "
@@ -897,9 +1123,19 @@ def run(ctx):
                 "render methods), the process-global classes being restored and the restoration verified after "
                 "every case; the model's C3 linearisation is compared with every class's real __mro__; readings "
                 "of every class (ABSENT where the setting does not exist) and instance after every op.  "
-                "Non-trivial: >= 2 classes, >= 3 ops, a class-level set and some unset; distinct by full case hash.",
+                "SUPPORT DETECTION inside the histories (corpus + random, own driver): a fresh process (no support "
+                "flag recorded on any class), the terminal reporting one of six identities (kitty 0.30 / kitty 0.19 / "
+                "konsole / wezterm / iterm2 / unknown; only name, version and the reply to the kitty graphics query are "
+                "stubbed, is_supported() is the library's own), forests of 1-4 classes, histories of 2-16 steps of ONE "
+                "setting (render method, forced support, jpeg quality, read-from-file) interleaved with support checks "
+                "on any class (a subclass first; with the recorded flags dropped) and instance creations, before / "
+                "between / after the set / unset operations; after every step every class and instance is read, a "
+                "new instance is read and rendered, the other settings are compared with their values at the start. "
+                "Non-trivial: >= 2 classes, >= 3 ops, a class-level set and some unset (detection cases: >= 2 classes, "
+                ">= 3 steps, a class-level set and a detection step); distinct by full case hash.",
         "samples": [describe(c) for c in cases[:1] + cases[len(CORPUS):len(CORPUS) + 1] + cases[ncorpus:ncorpus + 2]
-                    + ([] if ctx.replay else cases[-2:])],
+                    + ([] if ctx.replay else cases[-2:])]
+                   + [describe_detect(c) for c in dcases[:1] + dcases[-2:]],
         "histogram": hist,
         "mismatches": mismatches,
         "failures": failures,
@@ -916,6 +1152,11 @@ def run(ctx):
             "str.lower() maps no code point outside A-Z onto letters of the render-method names (checked over all "
             "code points of the running Python by the driver's probe at every run)",
             "a source's 'animated' flag and data size are facts about the file (PIL), inputs of the model",
+            "support detection: the terminal is represented by six identities (what get_terminal_name_version() returns "
+            "and what the kitty graphics query is answered); SettingsDetect.detects (the conclusion of the detection body "
+            "per style and identity) is compared with the real is_supported() at run time (model side of the judgement); "
+            "instances that exist from the start of a detection history were created before the fresh-process state was "
+            "entered",
         ],
         "trusted": ["impl driver reads _render_method (no public getter) and confirms it by the framing of real renders",
                     "decoding of a render into the method used: iterm2 LINES = one 'height=1' transmission per line, "
